@@ -3,5 +3,6 @@ INVARIANT DialAuth
 CHECK_DEADLOCK FALSE
 CONSTANTS
   Keys = {"k1", "k2"}
+  WeakKeys = {"w1"}
   HeldMode = "few"
   MaxInter = 0
